@@ -514,9 +514,30 @@ package router
 //@ # ---- C12: one-hop paths
 //@ import onehop "github.com/scionproto/scion/pkg/slayers/path/onehop"
 //@ # re-serialisation of the SCION header in place (byte-level contract: see C07)
+//@ # In-place re-serialisation of the SCION header of a one-hop-path packet (its only use). Given that the layer
+//@ # was decoded from rawPkt (the decoder's postconditions, repeated as preconditions), only the one-hop path bytes
+//@ # are rewritten from the path object; the reserved bytes 10-11 of the common header are written as zero.
 //@ func updateSCIONLayer
-//@   requires s.Path != nil
+//@   props C07 C18
+//@   inlines (*github.com/scionproto/scion/pkg/slayers.SCION).SerializeTo (*github.com/scionproto/scion/pkg/slayers.SCION).SerializeAddrHdr (*github.com/scionproto/scion/pkg/slayers.SCION).AddrHdrLen (github.com/scionproto/scion/pkg/slayers.AddrType).Length
+//@   requires typeis(s.Path, *onehop.Path) && asptr(s.Path, *onehop.Path) != nil
+//@   let o = asptr(s.Path, *onehop.Path)
+//@   let dl = 4*(1+(int(s.DstAddrType)&3))
+//@   let sl = 4*(1+(int(s.SrcAddrType)&3))
+//@   let al = 16+dl+sl
+//@   let hb = int(s.HdrLen)*4
+//@   split int(s.DstAddrType)&3 : 0, 1, 2, 3
+//@   split int(s.SrcAddrType)&3 : 0, 1, 2, 3
+//@   requires hb == 12+al+32
+//@   requires len(rawPkt) >= hb && s.BaseLayer.Payload == rawPkt[hb:]
+//@   requires s.RawDstAddr == rawPkt[28:28+dl] && s.RawSrcAddr == rawPkt[28+dl:28+dl+sl]
+//@   requires s.DstAddrType <= 15 && s.SrcAddrType <= 15 && s.Version <= 15 && s.FlowID <= 0xfffff
+//@   requires rawPkt[0] == s.Version<<4|s.TrafficClass>>4 && rawPkt[1] == s.TrafficClass<<4|uint8(s.FlowID>>16) && rawPkt[2] == uint8(s.FlowID>>8) && rawPkt[3] == uint8(s.FlowID)
+//@   requires rawPkt[4] == uint8(s.NextHdr) && rawPkt[5] == s.HdrLen && rawPkt[6] == uint8(s.PayloadLen>>8) && rawPkt[7] == uint8(s.PayloadLen) && rawPkt[8] == uint8(s.PathType) && rawPkt[9] == uint8(s.DstAddrType)<<4|uint8(s.SrcAddrType)
+//@   requires uint64(s.DstIA) == slayers.be64(rawPkt[12], rawPkt[13], rawPkt[14], rawPkt[15], rawPkt[16], rawPkt[17], rawPkt[18], rawPkt[19]) && uint64(s.SrcIA) == slayers.be64(rawPkt[20], rawPkt[21], rawPkt[22], rawPkt[23], rawPkt[24], rawPkt[25], rawPkt[26], rawPkt[27])
 //@   modifies arr(rawPkt)
+//@   ensures result == nil
+//@   ensures arrUpd(rawPkt, 10, 0, 0, at(12+al), ite(o.Info.ConsDir, 1, 0)|ite(o.Info.Peer, 2, 0), 0, uint8(o.Info.SegID>>8), uint8(o.Info.SegID), uint8(o.Info.Timestamp>>24), uint8(o.Info.Timestamp>>16), uint8(o.Info.Timestamp>>8), uint8(o.Info.Timestamp), ite(o.FirstHop.EgressRouterAlert, 1, 0)|ite(o.FirstHop.IngressRouterAlert, 2, 0), o.FirstHop.ExpTime, uint8(o.FirstHop.ConsIngress>>8), uint8(o.FirstHop.ConsIngress), uint8(o.FirstHop.ConsEgress>>8), uint8(o.FirstHop.ConsEgress), o.FirstHop.Mac[0], o.FirstHop.Mac[1], o.FirstHop.Mac[2], o.FirstHop.Mac[3], o.FirstHop.Mac[4], o.FirstHop.Mac[5], ite(o.SecondHop.EgressRouterAlert, 1, 0)|ite(o.SecondHop.IngressRouterAlert, 2, 0), o.SecondHop.ExpTime, uint8(o.SecondHop.ConsIngress>>8), uint8(o.SecondHop.ConsIngress), uint8(o.SecondHop.ConsEgress>>8), uint8(o.SecondHop.ConsEgress), o.SecondHop.Mac[0], o.SecondHop.Mac[1], o.SecondHop.Mac[2], o.SecondHop.Mac[3], o.SecondHop.Mac[4], o.SecondHop.Mac[5])
 
 //@ macro ohpOf(p) = asptr(p.scionLayer.Path, *onehop.Path)
 //@ func (*scionPacketProcessor).processOHP
